@@ -405,6 +405,7 @@ void generate(sim::Rng& g, const std::string&, const std::string& tier, Json& pr
     static const int lim[] = {0, 0, 40, 8};
     program.set("rlimit", lim[g.below(4)]);
     program.set("unknown_dtype", g.below(2) ? 0.25 : 0.0);
+    program.set("stdin_closed", (int)(g.below(8) == 0));
     Json ops = Json::array();
     int n = g.range(3, thorough ? 24 : 12);
     for (int i = 0; i < n; i++) {
@@ -453,6 +454,13 @@ void execute(const Json& program, const sim::Config& cfg, const std::string&) {
         if (nl.rlim_cur < old.rlim_cur) setrlimit(RLIMIT_NOFILE, &nl);
         g_extra["runs_with_small_handle_budget"]++;
     }
+    // a daemon-like environment: descriptor 0 is free, so the first open()/fopen() of the run is handed fd 0
+    int saved_stdin = -1;
+    if (program.get("stdin_closed", 0)) {
+        saved_stdin = dup(0);
+        close(0);
+        g_extra["runs_with_fd0_free"]++;
+    }
     sim::run(cfg, [&] {
         try {
             body(program, root);
@@ -460,6 +468,10 @@ void execute(const Json& program, const sim::Config& cfg, const std::string&) {
             sim::violation("unexpected-exception", std::string("exception escaped from tulz under valid use: ") + e.what());
         }
     });
+    if (saved_stdin >= 0) {
+        dup2(saved_stdin, 0);
+        close(saved_stdin);
+    }
     setrlimit(RLIMIT_NOFILE, &old);
     if (chdir(home.c_str()) != 0) _exit(13);
     remove_tree(root);
@@ -499,6 +511,7 @@ std::vector<Json> shrink(const Json& p) {
             for (size_t k = 0; k < kids[i].at("d").size(); k++) { Json c2 = p; auto& v = c2.at("tree").at("d")[i].at("d").a; v.erase(v.begin() + k); out.push_back(c2); }
     }
     if (p.get("rlimit", 0)) { Json c = p; c.set("rlimit", 0); out.push_back(c); }
+    if (p.get("stdin_closed", 0)) { Json c = p; c.set("stdin_closed", 0); out.push_back(c); }
     return out;
 }
 }  // namespace hx
